@@ -266,8 +266,59 @@ class D:
         return "\n".join(out) + "\n"
 
 
+def struct_graph(rng):
+    """2..4 structure/union types whose members refer to one another by value, pointer, array or bit-field (cycles included, as incomplete
+    code has them), objects of them, and a function that assigns, passes, compares and accesses them"""
+    n = rng.randint(2, 4)
+    tags = ["G%d" % i for i in range(n)]
+    kw = [rng.choice(["struct", "struct", "union"]) for _ in tags]
+    out = []
+    order = list(range(n)); rng.shuffle(order)
+    if rng.random() < 0.5:
+        out.append("".join("%s %s; " % (kw[i], tags[i]) for i in range(n)))
+    for i in order:
+        ms = []
+        for j in range(rng.randint(1, 3)):
+            t = rng.randrange(n)
+            form = rng.choice(["val", "val", "ptr", "arr", "const", "int", "bits", "anon"])
+            nm = "m%d" % j
+            if form == "val":
+                ms.append("%s %s %s;" % (kw[t], tags[t], nm))
+            elif form == "ptr":
+                ms.append("%s %s *%s;" % (kw[t], tags[t], nm))
+            elif form == "arr":
+                ms.append("%s %s %s[2];" % (kw[t], tags[t], nm))
+            elif form == "const":
+                ms.append("const %s %s %s;" % (kw[t], tags[t], nm))
+            elif form == "bits":
+                ms.append("int %s : 3, : 2;" % nm)
+            elif form == "anon":
+                ms.append("%s { int a%d; %s %s *p%d; };" % (rng.choice(["struct", "union"]), j, kw[t], tags[t], j))
+            else:
+                ms.append("int %s;" % nm)
+        out.append("%s %s { %s };" % (kw[i], tags[i], " ".join(ms)))
+    objs = []
+    for i in range(n):
+        out.append("%s %s x%d, y%d, *q%d;" % (kw[i], tags[i], i, i, i)); objs.append(i)
+    body = []
+    for _ in range(rng.randint(2, 6)):
+        i, j = rng.choice(objs), rng.choice(objs)
+        body.append(rng.choice(["x%d = y%d;" % (i, j), "x%d = *q%d;" % (i, j), "q%d = &x%d;" % (i, j), "x%d.m0 = y%d.m0;" % (i, j), "q%d->m1 = x%d.m0;" % (i, j),
+                                "g(x%d, q%d);" % (i, j), "x%d == y%d;" % (i, j), "x%d.m0.m0.m0 = 1;" % i, "(void)sizeof(x%d);" % i, "x%d = (%s %s){ 0 };" % (i, kw[i], tags[i]),
+                                "x%d.a0 = q%d->p0->a0;" % (i, j)]))
+    out.append("void g(%s %s a, %s %s *b);" % (kw[0], tags[0], kw[-1], tags[-1]))
+    out.append("void f(void) { %s }" % " ".join(body))
+    return "\n".join(out) + "\n"
+
+
 def units(rng, n, gnu_share=0.3):
-    return [D(random.Random(rng.getrandbits(48)), gnu=rng.random() < gnu_share).unit() for _ in range(n)]
+    out = []
+    for _ in range(n):
+        if rng.random() < 0.15:
+            out.append(struct_graph(random.Random(rng.getrandbits(48))))
+        else:
+            out.append(D(random.Random(rng.getrandbits(48)), gnu=rng.random() < gnu_share).unit())
+    return out
 
 
 if __name__ == "__main__":
